@@ -253,6 +253,8 @@ static void execOp(const std::string& actor, size_t idx, const js::Value& op) {
 			result = doTransform(interp, op);
 		} else if (name == "sleep") {
 			usim::sleep_ms((uint64_t)op["ms"].i64(1));
+		} else if (name == "settle") {
+			usim::settle();
 		} else if (name == "yield") {
 			usim::yield("op-yield");
 		} else if (name == "spawn") {
